@@ -23,6 +23,10 @@ import vlib
 
 HAND_FILES = ["Props/C19_dispatch.v", "Props/C20_history.v"]
 RUNNER = os.path.join(vlib.VERIF, "py", "C20_runner.py")
+KINDS = ("MF", "TR", "FN")
+KIND_NAMES = {"MF": "MultiFunction subclasses", "TR": "Transformer subclasses",
+              "FN": "plain functions passed to map_expr_dag/map_expr_dags"}
+FN_SAMPLES = ["Coefficient", "Sum", "Product", "Division", "Sin", "Abs", "Power", "Cos"]
 PARENTS = ["Operator", "Terminal", "Sum", "Grad", "Conditional", "FormArgument"]
 
 
@@ -44,6 +48,7 @@ def gen_history(rng, k, base_names):
         parent = rng.choice(PARENTS + [n for n, _p, _a in new])
         abstract = True if parent != "Operator" else rng.random() < 0.5
         new.append((nm, parent, abstract))
+    concrete = {n for n, _p, a in new if not a}
     algs = []
     for i in range(rng.randint(2, 4)):
         hs = [n for n in pool if rng.random() < 0.35]
@@ -51,7 +56,8 @@ def gen_history(rng, k, base_names):
         if rng.random() < 0.85 and "expr" not in hs:
             hs.append("expr")
         nm = f"Alg{i}" if i != 1 or rng.random() < 0.5 else "Alg0"     # same class name, different class
-        algs.append({"name": nm, "kind": rng.choice(["MF", "TR"]), "handlers": sorted(set(hs))})
+        kind = rng.choice(["MF", "TR", "MF", "TR", "FN"])
+        algs.append({"name": nm, "kind": kind, "handlers": sorted(set(hs)) if kind != "FN" else []})
     ops, registered = [], []
     todo = list(new)
     for _ in range(rng.randint(4, 12)):
@@ -63,13 +69,20 @@ def gen_history(rng, k, base_names):
         elif r < 0.5:
             ops.append(["inst", rng.randrange(len(algs))])
         else:
-            target = rng.choice(registered) if registered and rng.random() < 0.6 else rng.choice(base_names)
-            ops.append(["apply", rng.randrange(len(algs)), target])
+            a = rng.randrange(len(algs))
+            if algs[a]["kind"] == "FN":      # a plain function is applied to an INSTANCE: instantiable targets only
+                conc = [n for n in registered if n in concrete]
+                target = rng.choice(conc) if conc and rng.random() < 0.6 else rng.choice(FN_SAMPLES)
+            else:
+                target = rng.choice(registered) if registered and rng.random() < 0.6 else rng.choice(base_names)
+            ops.append(["apply", a, target])
     # the defect needs: use, register, apply-to-new; make sure a good share of histories has that shape
     if todo and rng.random() < 0.7:
         nm, parent, abstract = todo.pop(0)
         a = rng.randrange(len(algs))
-        ops += [["inst", a], ["reg", nm, parent, abstract], ["apply", a, nm], ["apply", rng.randrange(len(algs)), nm]]
+        b2 = rng.randrange(len(algs))
+        ops += [["inst", a], ["reg", nm, parent, abstract]]
+        ops += [["apply", x, nm] for x in (a, b2) if algs[x]["kind"] != "FN" or not abstract]
     return {"algs": algs, "ops": ops}
 
 
@@ -101,6 +114,8 @@ _BASE = {}
 
 def base_attrs(kind):
     """handler names already defined by the base class itself (e.g. Transformer.terminal)"""
+    if kind == "FN":
+        return set()
     if kind not in _BASE:
         base = MultiFunction if kind == "MF" else Transformer
         rows, name_id = L.class_table()
@@ -118,7 +133,7 @@ def coq_history(job, name_id, rows_by_name):
     algs = []
     for i, a in enumerate(job["algs"]):
         has = sorted(set(a["handlers"]) | base_attrs(a["kind"]) | {L.DEFAULT}, key=nid)
-        algs.append(f"(mkalg {i} {a['kind']} {L.coq_list(nid(n) for n in has)})")
+        algs.append(f"(mkalg {0 if a['kind'] == 'FN' else i} {a['kind']} {L.coq_list(nid(n) for n in has)})")
     ops = []
     m = {}
     tcs = {r["cls"].__name__: r["tc"] for r in rows_by_name.values()}
@@ -155,7 +170,7 @@ def main(run):
         run.violation({"broken": "class table checks", "lemma": res.failing_lemma(), "error": res.err[-1000:]}, False)
         return run.finish("class table broken")
 
-    # ---- T1: cache policy of the two __init__s
+    # ---- T1: cache policy of the two __init__s and of map_expr_dags' plain-function table
     pol, shapes = {}, {}
     for kind, cls in (("MF", MultiFunction), ("TR", Transformer)):
         try:
@@ -163,22 +178,55 @@ def main(run):
         except Exception as ex:      # noqa: BLE001
             shapes[kind] = {"ok": False, "why": f"cannot parse: {ex!r}"}
         pol[kind] = L.policy_from_shape(shapes[kind])
+    pol["FN"], why = L.plain_function_table_policy()
+    shapes["FN"] = {"ok": pol["FN"] is not None, "why": why}
     run.extra["init_shapes"] = shapes
     # behavioural probes (fresh subprocesses): confirm, or infer when the source shape is unknown
-    probe = {}
-    for kind in ("MF", "TR"):
-        alg = [{"name": "P", "kind": kind, "handlers": ["expr"]}]
-        a = run_history({"algs": alg, "ops": [["inst", 0], ["reg", "ProbeA", "Operator", True], ["apply", 0, "ProbeA"]]})
-        b = run_history({"algs": alg, "ops": [["reg", "ProbeB", "Operator", True], ["apply", 0, "ProbeB"]]})
+    probe, probe_jobs = {}, {}
+    for kind in KINDS:
+        alg = [{"name": "P", "kind": kind, "handlers": ["expr"] if kind != "FN" else []}]
+        ja = {"algs": alg, "ops": [["inst", 0], ["reg", "ProbeA", "Operator", False], ["apply", 0, "ProbeA"]]}
+        jb = {"algs": alg, "ops": [["reg", "ProbeB", "Operator", False], ["apply", 0, "ProbeB"]]}
+        with cf.ThreadPoolExecutor(max_workers=2) as ex:
+            a, b = list(ex.map(run_history, (ja, jb)))
         if "error" in a or "error" in b:
             raise RuntimeError(f"probe failed: {a.get('error') or b.get('error')}")
-        probe[kind] = (a["outputs"] != ["IndexError"], b["outputs"] != ["IndexError"])
+        want = ["expr"] if kind != "FN" else ["ufl_type"]
+        probe[kind] = (a["outputs"] == want, b["outputs"] == want)
+        probe_jobs[kind] = ((ja, a["outputs"]), (jb, b["outputs"]), want)
         if pol[kind] is None:
-            pol[kind] = probe[kind]
-            run.extra.setdefault("note", []).append(f"{kind}: __init__ shape not recognised, policy inferred from probes")
+            # policy that explains the probes: late registration fails -> snapshot; only stale cache fails -> no validation
+            pol[kind] = (probe[kind][0] or not probe[kind][1], probe[kind][1])
+            run.extra.setdefault("note", []).append(f"{kind}: source shape not recognised, policy inferred from probes")
     run.extra["policy(validate_len, live_registry)"] = pol
     run.extra["probe(stale-cache ok, late-registration ok)"] = probe
     good = all(v and l for v, l in pol.values())
+    known = vlib.load_known_findings("C20")
+    try:      # the merged known_findings.json may predate fields added to known/C20.json: complete by id
+        own = {k.get("id"): k for k in json.load(open(os.path.join(vlib.VERIF, "known", "C20.json")))["findings"]}
+    except (OSError, ValueError, KeyError):
+        own = {}
+    known = [dict(own.get(k.get("id"), {}), **k) if k.get("status") == "open" else k for k in known]
+    known_pol = {}
+    for kf in known:
+        for kk, vv in (kf.get("policy") or {}).items():
+            known_pol[kk] = tuple(vv)
+    # a kind whose table handling is defective in a way no open known finding records: new violation, with the
+    # probe history as the failing input
+    for kind in KINDS:
+        if all(pol[kind]) and all(probe[kind]):
+            continue
+        if tuple(pol[kind]) == known_pol.get(kind) and (all(probe[kind]) or not all(pol[kind])):
+            continue
+        (ja, oa), (jb, ob), want = probe_jobs[kind]
+        job, obs = (jb, ob) if not probe[kind][1] else (ja, oa)
+        run.violation({"what": f"dispatch of kind {kind} ({KIND_NAMES[kind]}) depends on use-before-registration / "
+                               "fails for a type registered later",
+                       "history": job, "real_outputs": obs, "expected_by_C19_dispatch": want,
+                       "extracted_policy(validate_len, live_registry)": pol[kind],
+                       "source_shape": shapes.get(kind),
+                       "reproduce": f"echo '<history json>' | PYTHONPATH=$UFL_REPO:/verif/py /venv/bin/python {RUNNER}"},
+                      obs != want)
 
     # ---- Gen/C20_policy.v : instantiate the theorems at the extracted policy
     b = lambda x: "true" if x else "false"      # noqa: E731
@@ -186,12 +234,12 @@ def main(run):
          "Require Import List Arith NArith Bool.",
          "Require Import UFLV.Props.C19_dispatch UFLV.Props.C20_history.", "Import ListNotations.",
          f"Definition pol (k : kind) : policy := match k with MF => mkpol {b(pol['MF'][0])} {b(pol['MF'][1])} "
-         f"| TR => mkpol {b(pol['TR'][0])} {b(pol['TR'][1])} end."]
+         f"| TR => mkpol {b(pol['TR'][0])} {b(pol['TR'][1])} | FN => mkpol {b(pol['FN'][0])} {b(pol['FN'][1])} end."]
     if good:
         P += ["Theorem C20_current_full : forall h st, InvPrefix st -> outputs pol h st = spec_outputs h (reg st).",
               "Proof. apply C20_history. intros []; split; reflexivity. Qed.",
               "Print Assumptions C20_current_full."]
-    for kind in ("MF", "TR"):
+    for kind in KINDS:
         v, l = pol[kind]
         if not v:
             P += [f"Theorem C20_current_refuted_{kind} : outputs pol (w_hist {kind}) w_st = [None] /\\ "
@@ -216,6 +264,18 @@ def main(run):
     nh = 20 if run.tier == "quick" else 100
     base_names = [r["cls"].__name__ for r in rows]
     jobs = [gen_history(random.Random(run.seed * 65537 + k), k, base_names) for k in range(nh)]
+    # structured histories first: two DISTINCT algorithm classes with the same (module, qualified) name, one used
+    # before and one first used after a registration; and different handler sets under one name
+    for j, kind in enumerate(("MF", "TR", "MF", "TR")):
+        rng = random.Random(run.seed * 977 + j)
+        h1 = sorted({"expr", rng.choice(["sum", "operator", "terminal"])})
+        h2 = sorted({"expr", rng.choice(["grad", "conditional", "coefficient"]), "struct_new%d" % j})
+        ops = [["inst", 0], ["reg", "StructNew%d" % j, "Operator", False], ["apply", 1, "StructNew%d" % j],
+               ["apply", 1, rng.choice(["Sum", "Grad", "Coefficient"])], ["apply", 0, "Sum"]]
+        if j >= 2:
+            ops = [["inst", 0], ["apply", 1, "Grad"], ["apply", 1, "Coefficient"], ["apply", 0, "Sum"]]
+        jobs[j] = {"algs": [{"name": "Same", "kind": kind, "handlers": h1},
+                            {"name": "Same", "kind": kind, "handlers": h2 if j < 2 else h2[:-1]}], "ops": ops}
     with cf.ThreadPoolExecutor(max_workers=vlib.NCPU) as ex:
         results = list(ex.map(run_history, jobs))
     nsh = 4 if run.tier == "quick" else vlib.NCPU
@@ -250,7 +310,6 @@ def main(run):
         if not res.ok:
             fl = res.failing_lemma() or ""
             broken.add(fl)
-    known = vlib.load_known_findings("C20")
     deviating = 0
     for k, (job, r) in enumerate(zip(jobs, results)):
         run.count_case(json.dumps(job, sort_keys=True), nontrivial=any(o[0] == "reg" for o in job["ops"]))
@@ -260,7 +319,11 @@ def main(run):
         if k < 3:
             run.sample({"history": job["ops"][:8], "algs": [(a["name"], a["kind"], a["handlers"][:4]) for a in job["algs"]],
                         "real_outputs": real[:8]})
-        if f"hist_{k}" in broken or (bad and (good or not known)):
+        # a deviation is an instance of a known finding only if the faithful model predicts it AND the policy of
+        # the algorithm kind involved is exactly the one recorded in the open known finding
+        apply_kinds = [job["algs"][o[1]]["kind"] for o in job["ops"] if o[0] == "apply"]
+        unknown_dev = [x for x in bad if tuple(pol[apply_kinds[x[0]]]) != known_pol.get(apply_kinds[x[0]])]
+        if (f"hist_{k}" in broken or unknown_dev) and len(run.violations) < 5:
             # model and code disagree, or the code deviates from the specification outside a known finding
             run.violation({"history": job, "real_outputs": real, "inst_errors": r.get("inst_errors"),
                            "expected_by_C19_dispatch": spec, "deviations(apply#, expected, observed)": bad,
